@@ -1,7 +1,7 @@
 (* Extraction of the C11 model and specification to OCaml.
    ExtrOcamlBasic only: bool, option, list, prod, unit map to OCaml's;
    N / positive / nat stay the extracted inductive types. *)
-From EP Require Import Base.Bytes Defrag.Spec Defrag.Model.
+From EP Require Import Base.Bytes Defrag.Spec Defrag.Model Defrag.PoolModel.
 From Coq Require Import Extraction ExtrOcamlBasic.
 Extraction Language OCaml.
 Extraction "m_c11.ml"
@@ -9,4 +9,5 @@ Extraction "m_c11.ml"
   buf_new add is_complete model_step
   pool_new process return_buf retain
   spec_new spec_add spec_complete spec_payload
-  spec_process spec_retain.
+  spec_process spec_retain
+  retain_f stats spec_retain_f.
